@@ -24,6 +24,8 @@ func init() {
 			{"pingreq.go", "type PingReq struct {", "var scratch = make([]byte, 16)\n\ntype PingReq struct {"}}},
 		{Name: "protocol-name-written-in-place", Rule: "R13.2", Where: "Connect.protocolName", Edits: []Edit{
 			{"connect.go", "func (p *Connect) SetProtocolName(v string) { p.protocolName = wstring(v) }", "func (p *Connect) SetProtocolName(v string) {\n\tp.protocolName = p.protocolName[:0]\n\tp.protocolName = append(p.protocolName, v...)\n}"}}},
+		{Name: "protocol-name-overwritten-through-a-by-value-helper", Rule: "R13.2", Where: "Connect.protocolName", Edits: []Edit{
+			{"connect.go", "func (p *Connect) SetProtocolName(v string) { p.protocolName = wstring(v) }", "func (p *Connect) SetProtocolName(v string) { p.protocolName = reuse(p.protocolName, v) }\n\nfunc reuse(dst []byte, v string) []byte {\n\tif len(dst) < len(v) {\n\t\treturn []byte(v)\n\t}\n\tdst = dst[:len(v)]\n\tcopy(dst, v)\n\treturn dst\n}"}}},
 		{Name: "string-caches-rendering", Rule: "R13.1", Where: "(*Connect).String", Edits: []Edit{
 			{"connect.go", "\twillPayload bindata // as the one in Publish.payload is raw", "\twillPayload bindata // as the one in Publish.payload is raw\n\trendered    string"},
 			{"connect.go", "func (p *Connect) String() string {\n\treturn fmt.Sprintf(", "func (p *Connect) String() string {\n\tp.rendered = p.ClientID()\n\treturn fmt.Sprintf("}}},
@@ -242,6 +244,24 @@ func writtenFieldOrigins(e *Effects, fn *ssa.Function, v ssa.Value, byType map[s
 	case *ssa.Phi:
 		for _, ed := range x.Edges {
 			writtenFieldOrigins(e, fn, ed, byType, seen, out, depth)
+		}
+	case *ssa.Parameter:
+		// a slice handed in by value (cloneInto(dst, src)): written in place here, it is what the callers pass
+		if _, isSl := x.Type().Underlying().(*types.Slice); !isSl {
+			return
+		}
+		idx := -1
+		for i, prm := range fn.Params {
+			if prm == x {
+				idx = i
+			}
+		}
+		for _, site := range e.callSitesOf[fn] {
+			cc := site.Common()
+			if idx < 0 || cc.IsInvoke() || cc.StaticCallee() != fn || idx >= len(cc.Args) {
+				continue
+			}
+			writtenFieldOrigins(e, site.Parent(), cc.Args[idx], byType, map[ssa.Value]bool{}, out, depth+1)
 		}
 	case *ssa.UnOp:
 		if x.Op.String() != "*" {
